@@ -106,7 +106,7 @@ Print Assumptions C07_pass_model_is_registry_model.
 
 (* the step that matters inside a pass, as part of the invariant of the registry model: a pass or a
    re-request that has read closed = true for an object only removes and clears it after a report *)
-Theorem C07_reported_before_dropped_partial : forall san ths sched t,
+Theorem C07_reported_before_dropped : forall san ths sched t,
   (forall t, In t ths -> tpc t = Idle) ->
   let s := run san (init ths) sched in
   In t (thr s) ->
@@ -120,7 +120,7 @@ Proof.
   destruct (run_inv san sched _ (inv_init ths H)) as (_ & Ht & _). specialize (Ht t Hin).
   destruct (tpc t); cbn [okpc] in Ht; try exact I; tauto.
 Qed.
-Print Assumptions C07_reported_before_dropped_partial.
+Print Assumptions C07_reported_before_dropped.
 
 (* non-vacuity: sanitizer merging keys 1 and 2; obtain 1, record, Close, obtain 2
    (a new live scope), obtain 1 again (stale alias), record on both; a complete
